@@ -32,6 +32,11 @@ def cases(rng, tier):
             for i in range(128):
                 if op in (0, 1, 2, 4, 5) and rc in list(range(11)) + [16] or i % 16 == 3:
                     out.append("BUILDHDR %x %x %x %x" % (rng.below(65536), op, rc, flagset(i)))
+    # state carried by a parsed packet: after parsing any flags word, replacing opcode and response code through the accessors
+    # and serialising must give exactly the new codes next to the old flag bits
+    for w in [rc | (op << 11) | fl for rc in (0, 3, 5, 15) for op in (0, 2, 5, 15) for fl in (0, 0x8000, 0x07B0, 0x87B0)]:
+        for (op2, rc2) in ((0, 0), (5, 0), (0, 3), (4, 9), (1, 2)):
+            out.append("HDRMOD %x %x %x" % (w, op2, rc2))
     # the response code of a message with EDNS data: low nibble from the header word, upper 8 bits from the OPT record's
     # extended-RCODE octet - and from nothing else (in particular not from the VERSION octet next to it)
     for w in [rc | (op << 11) | fl for rc in range(16) for (op, fl) in ((0, 0), (5, 0x8400), (0, 0x8180))]:
@@ -109,6 +114,15 @@ def oracle(case, out):
             expb = (idv.to_bytes(2, "big") + (w & 0xFFBF).to_bytes(2, "big") + bytes(8)).hex()
             if p.split()[-1] != expb:
                 return "re-serialised header for word %04x: got %s expected %s" % (w, p.split()[-1], expb)
+        return None
+    if t[0] == "HDRMOD":
+        w, op2, rc2 = (int(x, 16) for x in t[1:4])
+        if not out.startswith("OK "):
+            return "parse / modify / serialise of flags word %04x failed: %r" % (w, out[:80])
+        got = int(out[3:][4:8], 16)
+        want = (w & 0x87B0) | (op2 << 11) | rc2
+        if got != want:
+            return "flags word %04x, then opcode := %d and rcode := %d through the accessors: serialised word %04x, expected %04x" % (w, op2, rc2, got, want)
         return None
     if t[0] == "PARSE":
         d = bytes.fromhex(t[1])
